@@ -302,7 +302,9 @@ Section UbjBytes.
       + unfold onint64_b, onint32_b, onint16_b.
         destruct (_ && _); [destruct (_ && _); [destruct (_ && _); [apply int8_b_bytes|apply int16_b_bytes]|apply int32_b_bytes]|apply int64_b_bytes].
       + apply onint_b_bytes.
-      + rewrite !ab_cons. change (is_byte mC) with true. unfold in_u in H. change (2 ^ 8) with 256 in H.
+      + destruct (z >? 127).
+        { apply uint8_b_bytes. unfold in_u in H. change (2 ^ 8) with 256 in H. unfold is_byte. lia. }
+        rewrite !ab_cons. change (is_byte mC) with true. unfold in_u in H. change (2 ^ 8) with 256 in H.
         cbn [all_bytes forallb]. unfold is_byte. lia.
       + apply uint8_b_bytes. unfold in_u in H. change (2 ^ 8) with 256 in H. unfold is_byte. lia.
       + apply uint64_b_bytes. unfold in_u in H. lia.
@@ -670,7 +672,11 @@ Section UbjLim.
       destruct (ubj_len_facts _ _ _ El Hb) as (Hb1 & _ & Hl1 & _).
       destruct (take_bytes _ _ _ _ Et Hb1) as [_ Hbr]. apply take_some in Et as (_ & Hn & _ & _ & E & Ha).
       subst r1. rewrite zlen_app in *. split; [exact Hbr|]. cbn [cv_lim]. unfold zlen in *. split; lia.
-    - fixed_case pl_C H Hb.
+    - (* C: a char (0..127) *)
+      rewrite pl_C in H. destruct b as [|c r]; [discriminate H|].
+      destruct (c >? 127); [discriminate H|]. inversion H; subst.
+      rewrite all_bytes_cons in Hb. apply andb_true_iff in Hb as [_ Hbr].
+      split; [exact Hbr|split; [cbn [length]; lia|reflexivity]].
     - (* S *)
       rewrite pl_S in H. unfold ustr in H. destruct (ubj_len b) as [n r1| |] eqn:El; try discriminate.
       destruct (take n r1) as [[a r']|] eqn:Et; [|discriminate]. inversion H; subst.
